@@ -103,6 +103,9 @@ def eigh_iterative(hop, hdiag, cguess, algo):
         )
         c = c[:, 0]
         e = e[0]
+    elif algo == "arpack" and h_dim == 1:
+        # ARPACK needs k < N: a one-dimensional local problem is solved directly
+        e, c = float(hop(np.ones(1))[0]), np.ones(1)
     elif algo == "arpack":
         A = scipy.sparse.linalg.LinearOperator((h_dim, h_dim), matvec=hop)
         e, c = scipy.sparse.linalg.eigsh(A, k=1, which="SA", v0=cguess)
